@@ -127,10 +127,14 @@ impl Validator for ScriptHelper {
         let input = ctx.input();
         match self.s.validator.as_str() {
             "brackets" => rustyline::validate::MatchingBracketValidator::new().validate(ctx),
-            "script" => {
+            "script" | "scriptreq" | "scriptinc" => {
                 self.tick();
                 // scripted verdicts, decided by what the text contains
-                if input.contains("##") {
+                if input.is_empty() && self.s.validator == "scriptreq" {
+                    Ok(ValidationResult::Invalid(Some(" <-- required".to_owned())))
+                } else if input.is_empty() && self.s.validator == "scriptinc" {
+                    Ok(ValidationResult::Incomplete)
+                } else if input.contains("##") {
                     Err(rustyline::error::ReadlineError::Io(std::io::Error::new(
                         std::io::ErrorKind::Other,
                         "scripted validator error",
